@@ -214,21 +214,25 @@ def scenario(c, inst):
         rhsA.fault_at = None
         cbstate["off"] = True
         k2 = inst.get("k2")
+        fits_second = True
         if k2 is not None:
+            # (every integrate() call halves a step that exceeds the remaining distance when it starts - also the call that faults again)
+            fits_second = bool(absval(c, A.dt) <= absval(c, tf - A.t[-1]))
             rhsA.fault_at = len(rhsA.calls) + k2
-            rhsA.fault_exc = ValueError("second injected")
+            rhsA.fault_exc = RuntimeError("second injected")      # (a ValueError would be swallowed by the retry: known finding, covered by the -ValueError instances)
             st2, r2 = _run_catching(A.integrate, callback=[spans.cap_callback(c, cap, kind)])
             if len(rhsA.calls) > rhsA.fault_at:
                 c.check("c12.second_fault_raises_FailedIntegration", st2 == "exc" and isinstance(r2, FailedIntegration) and r2.__cause__ is rhsA.fault_exc)
                 n2 = len(A.t)
-                if kind != "adaptive":
+                if kind != "adaptive" and fits_second:
                     c.check("c12.rows_are_prefix_after_second_fault", n2 <= nB and _rows_equal(c, A, B, min(n2, nB)))
             rhsA.fault_at = None
         n_before = len(A.t)
+        snap_t, snap_y = list(A.t), [list(flat(c, A.y[i])) for i in range(n_before)]
         remaining = absval(c, tf - A.t[-1])
         # integrate() halves a step that exceeds the remaining distance at the START of a call, so a resumed run only reproduces the
         # uninterrupted rows when the current step still fits (C13: 'within tolerance otherwise')
-        fits = bool(absval(c, A.dt) <= remaining)
+        fits = bool(absval(c, A.dt) <= remaining) and fits_second
         st3, r3 = _run_catching(A.integrate, callback=[spans.cap_callback(c, cap, kind)])
         if st3 != "ok":
             cause = getattr(r3, "__cause__", None)
@@ -238,7 +242,8 @@ def scenario(c, inst):
                 c.check("c12.resume_reaches_target", False, info=repr(r3) + " / " + repr(cause))
         else:
             s = 1 if bool(tf - t0 > 0) else -1
-            c.check("c12.resume_keeps_recorded_prefix", len(A.t) >= n_before and (kind != "fixed" or _rows_equal(c, A, B, min(n_before, nB))))
+            c.check("c12.resume_keeps_recorded_prefix", len(A.t) >= n_before and
+                    c.all([c.all([c.eq(A.t[i], snap_t[i])] + [c.eq(u, v) for u, v in zip(flat(c, A.y[i]), snap_y[i])]) for i in range(n_before)]))
             c.check("c12.resume_monotone_to_target", c.all([c.lt(0, s * (A.t[i + 1] - A.t[i])) for i in range(len(A.t) - 1)] +
                                                            [c.le(absval(c, A.t[-1] - tf), 64 * spans.EPS64 * 64)]))
             same = kind == "fixed" and fits
